@@ -95,3 +95,23 @@ W w_cpx_eq(uint64_t n0, double re0, double im0, uint64_t diff, uint64_t j, int64
           if (diff == 1) b.real()[j] = re0 + 1; else if (diff == 2) b.imag()[j] = im0 + 1; else if (diff == 3) b.resize(n0 + 1, std::complex<double>(re0, im0));
           out[0] = (a == b); out[1] = (a != b);)
 }
+// ---- element type whose construction can fail: a resize that exits with an exception must leave value and flag storages in lockstep ----
+extern "C" int32_t hook_throw(int32_t site);
+struct TErr {};
+struct TP { int v; TP() : v(0) { if (hook_throw(1)) throw TErr(); } TP(int x) : v(x) {} TP(const TP& o) : v(o.v) { if (hook_throw(2)) throw TErr(); } TP(TP&& o) noexcept : v(o.v) {}
+            TP& operator=(const TP& o) { v = o.v; return *this; } TP& operator=(TP&& o) noexcept { v = o.v; return *this; } };
+typedef xtl::xoptional_vector<TP> OVT;
+W w_optvec_throw(uint64_t n0, uint64_t n1, uint64_t rz, int64_t* out)
+{
+    out[4] = 0;
+    try {
+        OVT c; c.resize(n0, TP(5));       // may itself fail: then the container is destroyed unobserved
+        out[4] = 1;
+        int threw = 0;
+        try { if (rz == 0) c.resize(n1); else if (rz == 1) c.resize(n1, TP(7)); else c.resize(n1, xtl::xoptional<TP>(TP(9), rz == 2)); }
+        catch (TErr&) { threw = 1; }
+        out[0] = static_cast<int64_t>(c.size()); out[1] = static_cast<int64_t>(c.value().size()); out[2] = static_cast<int64_t>(c.has_value().size()); out[3] = threw;
+        out[4] = 2;
+    } catch (TErr&) {}
+    return 0;
+}
